@@ -13,7 +13,7 @@ MISSPELLINGS = ["tset", "wrold", "qzxvb", "mispeled", "gardden", "Tset", "caféi
 CLAUSES = [
     "We saw a {w} here", "the {w} is back", "it was a {w} again", "an apple and a apple", "it is better then that", "the the end",
     "this one is fine", "nothing to report here", "\U0001F600 a {w} with emoji", "they could of left",
-    "see [a {w} link](http://example.com) here", "Dies ist ein deutscher Satz mit einem {w} und vielen anderen Worten darin",
+    "see [a {w} link](http://example.com) here", "{W} is how it starts", "{W} or {w}, who knows", "so {w} it is. {W} it was", "Dies ist ein deutscher Satz mit einem {w} und vielen anderen Worten darin",
 ]
 
 _cache = {}
@@ -32,7 +32,8 @@ def make_text(rng, words=None, n=None):
     parts = []
     for _ in range(n):
         c = rng.choice(CLAUSES)
-        parts.append(c.format(w=rng.choice(words or MISSPELLINGS)))
+        w = rng.choice(words or MISSPELLINGS)
+        parts.append(c.format(w=w, W=w[:1].upper() + w[1:]))
     sep = rng.choice([". ", ".\n", ".\n\n"])
     return sep.join(parts) + rng.choice([".", ".\n", ""])
 
